@@ -67,6 +67,7 @@ func TestVerifC16(t *testing.T) {
 		{CallsA: 1, Ops: []vsched.NotifyOp{T(1, 1), T(2, 2)}, Cancel: true},
 		{CallsA: 1, CallsB: 1, Ops: []vsched.NotifyOp{T(1, 1)}},
 		{CallsA: 2, CallsB: 1, Ops: []vsched.NotifyOp{T(1, 1), T(2, 2)}},
+		{CallsA: 1, CallsB: 1, Ops: []vsched.NotifyOp{T(1, 1)}, CancelFirstOnly: true},
 	}
 	newWorld := func(sc vsched.NotifyScenario) vsched.NotifyWorld {
 		return &c16world{c: newPeerCache(), cur: [2]PeersUpdate{{}, {}}}
